@@ -152,7 +152,7 @@ PROPS = {
                          "C03's theorems placeKey_placed / tiling_value / tiling_duration (re-checked by the kernel as imports)"],
     },
     "C04": {
-        "suites": ["scope-c04"],
+        "suites": ["scope-c04", "c09sub"],
         "assumptions": COMMON_ASSUME + [
             "Model.Scope is sequential: one API call at a time (concurrency of these paths is C01/C02/C07/C09)",
             "the registry shard of a request is observed through a shim and given to the model as an input",
